@@ -71,6 +71,7 @@ def parse_op(s):
     if m: return {"DropGuardStore": {"a": int(m[1])}}
     m = re.match(r"^c(\d+)\.with_mut\(panic\)$", s)
     if m: return {"PanicInCellMut": {"c": int(m[1])}}
+    if s == "count_polls": return "LoopCounter"
     m = re.match(r"^c(\d+)\.nested\((\d+)\)$", s)
     if m: return {"CellNested": {"c": int(m[1]), "k": int(m[2])}}
     m = re.match(r"^x(\d+)\.with_mut\(panic\)$", s)
